@@ -1,3 +1,4 @@
+mod alloc;
 mod engine;
 mod genr;
 mod prng;
@@ -12,6 +13,9 @@ mod wire;
 
 use engine::*;
 use genr::Tier;
+
+#[global_allocator]
+static GLOBAL: alloc::SimAlloc = alloc::SimAlloc;
 
 fn usage() -> ! {
     eprintln!("usage: frostsim run <ID> [--tier quick|thorough] [--seed N] [--runs N] [--jobs N] [--evidence PATH] [--verif-dir DIR] [--no-evidence]\n       frostsim replay <ID> <file> [--verif-dir DIR]\n       frostsim list");
